@@ -12,5 +12,11 @@ CLAIMED = {
         design_ref="§4 C06, §3.6",
         note="bounds: depth<=4, lengths 0..3 exhaustive (sampled to 12 / limits to 200 in thorough); linear nests only (one construct per level)",
     ),
+    "C23": dict(
+        technique="TLA+ spec LoaderCache.tla (store, LRU cache, reference loader) model-checked with TLC; one shortest history per reachable (store, cache, last-op) state replayed against real caching dict/choice/file-system loaders and the matching non-caching loader",
+        text="TLC checks Transparent/NoCrossNamespace/GlobalsApply/Bounded/ModeIndependent over all request/edit histories (length<=3 quick, 4 thorough, simulation to 12) x capacity x auto_reload x detectable x namespace-aware; emitted histories are replayed into CachingDictLoader, CachingChoiceLoader, CachingFileSystemLoader (and namespace-aware subclasses) with sync/async requests, namespace by kwarg/context/both, globals; each answer must equal the specification's (source, version, globals) and the non-caching loader's template name",
+        design_ref="§4 C23, §3.2",
+        note="requests are atomic in the model (overlapping async requests are not interleaved); staleness is permitted for dict-backed sources; namespace-aware sources are harness subclasses following the documented pattern",
+    ),
 }
 NOT_APPLICABLE = {}
